@@ -60,6 +60,57 @@ func init() {
 
 func c15Run(c *engine.Ctx) {
 	names := append(ap.CollectionPaths{}, ap.ActivityPubCollections...)
+	// owners that are not parsable as URLs take the textual branch of Split: building a collection IRI and splitting it again
+	// must give back exactly the owner and the name
+	for _, o := range []string{"http://e.com:port/users/1", "http://%zz/users/1", "ht tp://e.com/a", "e.com/a", "/a/b", "a", "http://e.com/a\x7f"} {
+		for _, name := range names {
+			o, name := o, name
+			class := fmt.Sprintf("C15|roundtrip-non-url|%s", name)
+			c.Do(class, func() string { return fmt.Sprintf("owner %q (not a parsable URL), collection %s", o, name) }, func(t *engine.T) {
+				t.Distinct(true)
+				owner := ap.IRI(o)
+				built := ap.IRIf(owner, name)
+				o2, c2 := ap.Split(built)
+				back, err := name.OfActor(built)
+				t.Ops(3)
+				if c2 != name || o2 != owner {
+					t.Fail(class+"|split", "Split(IRIf(%q,%s)=%q) = (%q,%q)", o, name, string(built), string(o2), c2)
+				}
+				if err != nil || back != owner {
+					t.Fail(class+"|ofactor", "%s.OfActor(%q) = (%q,%v)", name, string(built), string(back), err)
+				}
+				if !ap.ValidCollectionIRI(built) {
+					t.Fail(class+"|valid", "ValidCollectionIRI(%q) = false", string(built))
+				}
+				if ap.ValidCollectionIRI(owner) {
+					t.Fail(class+"|valid-owner", "ValidCollectionIRI(%q) = true", o)
+				}
+			})
+		}
+	}
+	// the three predicates on collection names agree with the tables they are documented by
+	c.Do("C15|valid-collection-names", func() string {
+		return "ValidCollection / ValidActivityCollection / ValidObjectCollection on every name"
+	}, func(t *engine.T) {
+		t.Distinct(true)
+		all := append(append(ap.CollectionPaths{}, names...), "unknown", "", "inboxx", "INBOX", "Followers")
+		for _, n := range all {
+			va, vo, vc := ap.ValidActivityCollection(n), ap.ValidObjectCollection(n), ap.ValidCollection(n)
+			if vc != (va || vo) {
+				t.Fail("C15|valid-collection-names|inconsistent|"+string(n), "ValidCollection(%q)=%v but ValidActivityCollection=%v ValidObjectCollection=%v", n, vc, va, vo)
+			}
+			known := false
+			for _, k := range names {
+				if strings.EqualFold(string(k), string(n)) {
+					known = true
+				}
+			}
+			if vc && !known {
+				t.Fail("C15|valid-collection-names|unknown-name-valid|"+string(n), "ValidCollection(%q) = true for a name that is no well-known collection", n)
+			}
+		}
+		t.Ops(3 * len(all))
+	})
 	for _, s := range c15Schemes {
 		for _, h := range c15Hosts {
 			for _, p := range c15Paths {
